@@ -102,7 +102,7 @@ def arange(*interval, dtype=None, requires_grad=False, name=None, device=None):
     """
     Creates a Tensor filled with values in range
     """
-    return Tensor(np.arange(*interval, dtype=default_type__), dtype=dtype, requires_grad=requires_grad, name=name, device=device)
+    return Tensor(np.arange(*interval, dtype=default_type__ if dtype is None else dtype), dtype=dtype, requires_grad=requires_grad, name=name, device=device)
 
 def rand(*shape, dtype=None, requires_grad=False, name=None, device=None):
     """
